@@ -1431,6 +1431,9 @@ func (l *c14rLog) take() (msgs []string) {
 type c14rStorage struct {
 	resps []*StorageProfilesResponse
 	calls int
+
+	// partial counts the requests for an incremental synchronisation.
+	partial int
 }
 
 func (s *c14rStorage) CreateAutoDevice(context.Context, *StorageCreateAutoDeviceRequest) (*StorageCreateAutoDeviceResponse, error) {
@@ -1439,8 +1442,11 @@ func (s *c14rStorage) CreateAutoDevice(context.Context, *StorageCreateAutoDevice
 	return nil, errors.New("storage must not be needed")
 }
 
-func (s *c14rStorage) Profiles(context.Context, *StorageProfilesRequest) (*StorageProfilesResponse, error) {
+func (s *c14rStorage) Profiles(_ context.Context, req *StorageProfilesRequest) (*StorageProfilesResponse, error) {
 	s.calls++
+	if !req.SyncTime.IsZero() {
+		s.partial++
+	}
 	if len(s.resps) == 0 {
 		return nil, errors.New("storage must not be needed")
 	}
@@ -1512,24 +1518,80 @@ func c14rScratch(t *testing.T, setTmp bool) (dir string) {
 
 // c14rRunCase executes one case against the real code.
 func c14rRunCase(r *vrt.Run, dir string, c c14rCase) (fs []vrt.Finding) {
+	return c14rRunSyncs(r, dir, c, []c14rCase{c})
+}
+
+// c14rSeqCase is a case of the part "restart-after-resyncs": one long-lived
+// database performs the full synchronisations Syncs in order (each writes
+// the cache through the same file-cache storage object), then a new database
+// is opened on the cache file.
+type c14rSeqCase struct {
+	Syncs []c14rCase `json:"syncs"`
+}
+
+func (c c14rSeqCase) String() string {
+	parts := []string{}
+	for _, s := range c.Syncs {
+		parts = append(parts, "["+s.String()+"]")
+	}
+
+	return "full syncs " + strings.Join(parts, " then ")
+}
+
+// c14rResyncWorlds are the contents between which the long-lived database
+// of the part "restart-after-resyncs" moves: every world shape (whole
+// profiles and devices appear and disappear, a profile loses all devices),
+// every alternative of the device keys (linked IP, dedicated IPs, human id),
+// an all-default profile and a deleted profile.
+func c14rResyncWorlds() (out []c14rCase) {
+	out = append(out, c14rCase{Devs: []c14rDev{}})
+	for _, f := range c14rFields {
+		switch f.name {
+		case "World.Shape", "Device.LinkedIP", "Device.DedicatedIPs", "Device.HumanIDLower":
+			for _, a := range f.alts {
+				out = append(out, c14rCase{Devs: []c14rDev{{F: f.name, V: a.name}}})
+			}
+		}
+	}
+	out = append(out,
+		c14rCase{Devs: []c14rDev{{F: "Profile.Record", V: "all-default"}}},
+		c14rCase{Devs: []c14rDev{{F: "Device.Record", V: "all-default"}}},
+		c14rCase{Devs: []c14rDev{{F: "Profile.Deleted", V: "flipped"}}},
+		c14rCase{Devs: []c14rDev{{F: "World.Shape", V: "three-profiles-one-empty"}, {F: "Device.Record", V: "only-human-id"}}},
+	)
+
+	return out
+}
+
+// c14rRunSyncs lets one database synchronise (fully) the contents syncs in
+// order, restarts a second database from the cache file and compares it with
+// the first database, i.e. with the content of the last synchronisation.
+func c14rRunSyncs(r *vrt.Run, dir string, c fmt.Stringer, syncs []c14rCase) (fs []vrt.Finding) {
 	ctx := context.Background()
-	w := c14rBuildWorld(c)
 	path := filepath.Join(dir, "cache.pb")
 	_ = os.Remove(path)
 	defer os.Remove(path)
 
 	log1 := c14rNewLog()
-	strg1 := &c14rStorage{resps: []*StorageProfilesResponse{w.response()}}
+	strg1 := &c14rStorage{}
+	for _, sc := range syncs {
+		strg1.resps = append(strg1.resps, c14rBuildWorld(sc).response())
+	}
 	db1 := c14rNewDB(path, strg1, log1)
-	var err error
-	if pn := vrt.Catch(func() { err = db1.Refresh(ctx) }); pn != "" {
-		r.Class("store:panic")
+	for i := range syncs {
+		var err error
+		if pn := vrt.Catch(func() { err = db1.Refresh(ctx) }); pn != "" {
+			r.Class("store:panic")
 
-		return vrt.F("restart/store-panics", "case %s: the full synchronisation panics while writing the cache: %s", c, pn)
-	} else if err != nil {
-		r.Class("store:error")
+			return vrt.F("restart/store-panics", "case %s: full synchronisation %d panics while writing the cache: %s", c, i+1, pn)
+		} else if err != nil {
+			r.Class("store:error")
 
-		return vrt.F("restart/store-fails", "case %s: the full synchronisation fails: %v", c, err)
+			return vrt.F("restart/store-fails", "case %s: full synchronisation %d fails: %v", c, i+1, err)
+		}
+	}
+	if strg1.calls != len(syncs) || strg1.partial != 0 {
+		vrt.Fatalf("case %s: %d storage requests, %d of them incremental; want %d full ones", c, strg1.calls, strg1.partial, len(syncs))
 	}
 	before := c14rObserve(db1)
 
@@ -1543,10 +1605,10 @@ func c14rRunCase(r *vrt.Run, dir string, c c14rCase) (fs []vrt.Finding) {
 	}
 	warns := log2.take()
 	after := c14rObserve(db2)
-	r.Trans(3 + len(before.lookups) + len(after.lookups))
+	r.Trans(2 + len(syncs) + len(before.lookups) + len(after.lookups))
 
-	r.Class(fmt.Sprintf("written: %d profiles %d devices %d lookups found; restarted: %d profiles %d devices %d lookups found",
-		len(db1.profiles), len(db1.devices), before.found, len(db2.profiles), len(db2.devices), after.found))
+	r.Class(fmt.Sprintf("%d full syncs; written: %d profiles %d devices %d lookups found; restarted: %d profiles %d devices %d lookups found",
+		len(syncs), len(db1.profiles), len(db1.devices), before.found, len(db2.profiles), len(db2.devices), after.found))
 	r.State(after.digest())
 
 	if strg2.calls > 0 {
@@ -1658,12 +1720,31 @@ func TestVerifC14Restart(t *testing.T) {
 	r.Bound("restart_fields", len(c14rFields))
 	r.Bound("restart_alternatives", nAlts)
 	r.Bound("restart_max_simultaneous_deviations", k)
+	worlds := c14rResyncWorlds()
+	nSyncs := vrt.Pick(r, 2, 3)
+	r.Bound("resync_contents", len(worlds))
+	r.Bound("resync_full_syncs_before_restart", nSyncs)
 	r.Bound("restart_lookups_per_database", len(c14rUniDevIDs)+2*len(c14rUniIPs)+len(c14rUniHumans)*len(c14rUniProfiles))
 	synctest.Test(t, func(t *testing.T) {
 		c14rSelfCheck()
 		vrt.Part(r, "restart",
 			func(emit func(c c14rCase)) { c14rEnumerate(k, true, emit) },
 			func(c c14rCase) []vrt.Finding { return c14rRunCase(r, dir, c) })
+		// One long-lived database, several full synchronisations, then the
+		// restart: all sequences of nSyncs contents of the alphabet.
+		vrt.Part(r, "restart-after-resyncs",
+			func(emit func(c c14rSeqCase)) {
+				for n := 2; n <= nSyncs; n++ {
+					vrt.Odometer(slices.Repeat([]int{len(worlds)}, n), func(idx []int) {
+						sc := c14rSeqCase{}
+						for _, i := range idx {
+							sc.Syncs = append(sc.Syncs, worlds[i])
+						}
+						emit(sc)
+					})
+				}
+			},
+			func(c c14rSeqCase) []vrt.Finding { return c14rRunSyncs(r, dir, c, c.Syncs) })
 	})
 	r.Finish()
 	_ = os.RemoveAll(dir)
